@@ -133,6 +133,17 @@ def regenerate(repo, outdir):
            'Local Open Scope Z_scope.\n\n')
     _write(os.path.join(outdir, 'Gen_control_ctors.v'), hdr + text)
     res['Gen_control_ctors'] = {'leaves': status, 'ok': all(v == 'ctor' for v in status.values())}
+    # --- fqe/fci_graph.py: FciGraph._build_string_address (sum of Z-matrix entries)
+    src = open(os.path.join(repo, 'src/fqe/fci_graph.py')).read()
+    try:
+        text = py2coq.translate_table_sum(src, 'FciGraph', '_build_string_address', '_get_Z_matrix')
+        status = {'_build_string_address': 'tablesum'}
+    except py2coq.Unsupported as e:
+        text = ''
+        status = {'_build_string_address': 'unsupported: %s' % e}
+    _write(os.path.join(outdir, 'Gen_address_py.v'),
+           (HEADER % 'src/fqe/fci_graph.py').replace('Import GenBase.', 'Import GenBase Addr GenLoops.') + text)
+    res['Gen_address_py'] = {'leaves': status, 'ok': not text == ''}
     return res
 
 
